@@ -96,6 +96,11 @@ struct Encoding<
   }
 
   static constexpr std::size_t Size(const Type& value) {
+    // A size member above the capacity is rejected by WritePayload(); do not
+    // walk past the end of the array estimating the size of such a value.
+    if (!IsUnbounded && static_cast<std::size_t>(value.size()) > Length)
+      return BaseEncodingSize(Prefix(value));
+
     std::size_t element_size_sum = 0;
     for (const ValueType& element : value)
       element_size_sum += Encoding<ValueType>::Size(element);
